@@ -130,7 +130,18 @@ func runC18(cfg *vh.Config) error {
 			prof.Wild = 25
 		}
 		prof.Comments = r.Chance(25)
+		prof.Collide = len(cases) == 1 || len(cases) == 2 || len(cases) == 12
 		c := descgen.Generate(r.Fork(fmt.Sprintf("case%d-%d", len(cases), invalid)), prof, deps)
+		if len(cases)%10 == 3 {
+			// a valid j5s package compiled by the real compiler (the C02 generator)
+			jc, jerr := descgen.GenerateJ5S(r.Fork(fmt.Sprintf("j5s-%d-%d", len(cases), invalid)))
+			if jerr != nil {
+				invalid++
+				res.Count("j5s-package-not-compiled")
+				continue
+			}
+			c = jc
+		}
 		files, b, lerr := descgen.Link(c.Set())
 		if lerr != nil {
 			invalid++
@@ -216,19 +227,9 @@ func runC18(cfg *vh.Config) error {
 				}
 				in["step"] = o.Step
 				if collides && reConfusion.MatchString(sig+" "+got) {
-					// one signature per stage for the name-collision class
-					stage := "schema refers to a schema of another kind"
-					switch {
-					case strings.Contains(sig, "codec") && strings.Contains(sig, "panic"):
-						stage = "codec panics on the type assertion of Ref.To"
-					case strings.Contains(sig, "codec"):
-						stage = "codec builds the property set of the other descriptor's schema"
-					case strings.Contains(sig, "-> panic"):
-						stage = "reader panics on ref.To.(*EnumSchema)"
-					case strings.Contains(sig, "earlier failed builds"):
-						stage = "answer differs between a fresh and a shared cache"
-					}
-					sig = "C18 two descriptors with the same split name (package, names joined by _) -> " + stage
+					// one signature for the name-collision class; the stage stays in Got
+					got = sig + " | " + got
+					sig = "C18 two descriptors with the same split name (package, names joined by _) -> type confusion (reader panic / schema of another kind / codec failure / order-dependent answer)"
 				}
 				res.Fail(vh.Failure{Case: c.id, Stream: kind, Sig: sig, Clause: clause, Input: in, Got: got})
 			}
